@@ -84,9 +84,9 @@ type c16Case struct {
 	Index       int       `json:"index"`
 	Model       c16Model  `json:"model"`
 	Projectors  []c16Proj `json:"projectors"`
-	GPUs        []c16GPU  `json:"gpus"`           // one library: argument of EstimateGPULayers
-	Extra       []c16GPU  `json:"extra_gpus"`     // second library group, only for PredictServerFit
-	ExtraFirst  bool      `json:"extra_first"`    // extra group precedes the main group in the list
+	GPUs        []c16GPU  `json:"gpus"`        // one library: argument of EstimateGPULayers
+	Extra       []c16GPU  `json:"extra_gpus"`  // second library group, only for PredictServerFit
+	ExtraFirst  bool      `json:"extra_first"` // extra group precedes the main group in the list
 	NumCtx      int       `json:"num_ctx"`
 	NumBatch    int       `json:"num_batch"`
 	NumGPU      int       `json:"num_gpu"`
